@@ -298,12 +298,14 @@ class Gen:
             cpu = self.pick_cpu(target)
         else:
             cpu = r.choice(target.loom.cpus + [target.loom.vcpu])
-        if cpu is target.cpu:
+        if cpu is target.cpu and not r.chance(15):
             others = [c for c in target.loom.cpus + [target.loom.vcpu] if c is not target.cpu
                       and (not target.running or self.free_for_run(c, target))]
             if not others:
                 return False
             cpu = r.choice(others)
+        if cpu is target.cpu:
+            self.probe("remote affinity event naming the CPU the target is already on")
         if target.state in ("P", "W", "C"):
             self.probe("remote migration of a %s thread" % {"P": "paused", "W": "warming", "C": "cooling"}[target.state])
         if target.proc is not th.proc:
